@@ -352,17 +352,9 @@ def run(run):
     q = run.tier == "quick"
     jobs = [("shard_unit", dict(seed=run.seed * 100 + i, n=150 if q else 3000)) for i in range(10)]
     jobs += [("shard_unit", dict(seed=run.seed * 100 + 50 + i, n=100 if q else 1500, threshold=True)) for i in range(4)]
-    from ..unitlab import HarnessError, _shard_entry
-    import concurrent.futures
-    import multiprocessing
+    from ..unitlab import merge_job_outputs, run_jobs
 
-    ctx = multiprocessing.get_context("fork")
-    with concurrent.futures.ProcessPoolExecutor(14, mp_context=ctx) as ex:
-        outs = list(ex.map(_shard_entry, [("vf.props.c09", fn, kw) for fn, kw in jobs]))
-    for status, payload in outs:
-        if status != "ok":
-            raise HarnessError(payload)
-        run.merge_shard(payload)
+    merge_job_outputs(run, run_jobs([("vf.props.c09", fn, kw) for fn, kw in jobs], processes=14))
     gridcheck.run_corpus_property(run, "vf.props.c09", "check_grid", corpus.base_corpus(run.tier, run.seed))
     nesting_pairs(run)
     run.rule = RULE
